@@ -341,20 +341,24 @@ def comp_opts_hostile_stage(work, rep, ev, tier, tools):
     if mc is None:
         return None
     _, hostile = mc
-    if len(hostile) < 100:
+    if len(hostile) < 700:
         print("SELF-CHECK-FAILED: CompOpts emitted %d hostile records" % len(hostile))
         return None
     read = compopt_bind.reader(work, "c05")
     jobs = []
+
+    def with_header(b, cls):
+        n = len(b) - 2
+        word = {"ok": 0x8000 | n, "shorter": 0x8000 | (n - 1), "longer": 0x8000 | (n + 1), "fills64": 0x8000 | 63, "block8k": 0x8000 | 8192 if False else 0x8000 | 8191,
+                "max": 0xFFFF, "compressed": n}[cls]
+        return struct.pack("<H", word & 0xFFFF) + b[2:]
     for h in hostile:
         r = h["r"]
-        b = compopt_bind.encode(r)
-        jobs.append((r, h["ok"], b, "fields"))
-        if h["ok"]:
-            jobs.append((r, False, struct.pack("<H", 0x8000 | (len(b) - 1)) + b[2:], "header-size"))        # header states another size
-            jobs.append((r, False, struct.pack("<H", len(b) - 2) + b[2:], "header-compressed-bit"))
+        if h["h"] != "ok" and not (r.get("level", 1) in (1, 3, 22) or r.get("dict") == 8192 or r.get("version") == 1):
+            continue                                     # header faults on a sample of the field classes
+        jobs.append((r, h["ok"], with_header(compopt_bind.encode(r), h["h"]), h["h"]))
     # planted in a real image of that compressor (the tools must survive whatever they make of it)
-    base = {}
+    base, BASE_START = {}, {}
     os.makedirs(work + "/coh/t", exist_ok=True)
     open(work + "/coh/t/f", "wb").write(b"some content\n" * 3000)
     for comp, x in (("gzip", "level=3"), ("xz", "x86"), ("lz4", "hc"), ("zstd", "level=3")):
@@ -363,6 +367,7 @@ def comp_opts_hostile_stage(work, rep, ev, tier, tools):
         if rc:
             raise RuntimeError("cannot pack base image for %s: %s" % (comp, e[-200:]))
         base[comp] = open(img, "rb").read()
+        BASE_START[comp] = sqfsimg.SqfsImage(base[comp]).data_start
 
     def do(j):
         r, ok, b, how = jobs[j]
@@ -377,13 +382,13 @@ def comp_opts_hostile_stage(work, rep, ev, tier, tools):
             if (res["read"] == 0) != ok:
                 out.append(("compopt-record-judged", "read_options(%s) on record %s (%s, %s): %s, the specification says %s"
                             % (comp, b.hex(), r, how, "accepted" if res["read"] == 0 else "refused (%d)" % res["read"], "accept" if ok else "refuse")))
-            elif ok and how == "fields":
+            elif ok and how == "ok":
                 if comp == "gzip" and (res["level"], res["window"], res["flags"]) != (r["level"], r["window"], compopt_bind.bits(r["flags"])):
                     out.append(("compopt-config", "read_options(gzip) on %s leaves %s" % (r, res)))
                 if comp == "xz" and (res["dict"], res["flags"]) != (r["dict"], compopt_bind.bits(r["flags"])):
                     out.append(("compopt-config", "read_options(xz) on %s leaves %s" % (r, res)))
         raw = bytearray(base[comp])
-        if len(b) == sqfsimg.SqfsImage(bytes(raw)).data_start - 96:
+        if len(b) == BASE_START[comp] - 96:
             raw[96:96 + len(b)] = b
             p = "%s/coh/h%d.sqfs" % (work, j)
             open(p, "wb").write(raw)
